@@ -10,40 +10,53 @@
    Deviations (the code as found):
      "adds_header"        the http proxy re-serialises requests and adds a default User-Agent
      "reader_per_message" buffered bytes of the next pipelined request are dropped
-     "does_nothing"       copy / dns proxy type-switch on the concrete connection type and never match *)
+     "does_nothing"       copy / dns proxy type-switch on the concrete connection type and never match
+   Model regression only: "returns_on_first_eof" - the relay is torn down as soon as ONE direction has ended, so a
+   client that half-closes after its last request (and a backend that answers only then) gets no reply.
+   SSH units: each password attempt, each channel request and the channel data are units of the same two legs. *)
 EXTENDS Integers, Sequences, FiniteSets, TLC
 
 CONSTANTS Backend, Others, Deviations
 
 VARIABLES Requests,      \* the units the client sends, in order (fixed for a behaviour)
           Replies,       \* Replies[i]: the backend's answer to request i
-          sent, atBackend, answered, atClient, dialled
-vars == <<Requests, Replies, sent, atBackend, answered, atClient, dialled>>
+          halfclose,     \* the client shuts down its sending side after its last request; the backend answers when it sees that
+          sent, atBackend, answered, atClient, dialled,
+          shut           \* 0: open, 1: the client has shut down its sending side, 2: the backend has seen the end of the stream
+vars == <<Requests, Replies, halfclose, sent, atBackend, answered, atClient, dialled, shut>>
 
-Init(rq, rp) == Requests = rq /\ Replies = rp /\ sent = 0 /\ atBackend = <<>> /\ answered = 0 /\ atClient = <<>> /\ dialled = {}
+Init(rq, rp, hc) == /\ Requests = rq /\ Replies = rp /\ halfclose = hc /\ sent = 0 /\ atBackend = <<>> /\ answered = 0
+                    /\ atClient = <<>> /\ dialled = {} /\ shut = 0
 
 Mangle(u) == IF "adds_header" \in Deviations /\ u.kind = "http" /\ ~u.hasUA THEN [u EXCEPT !.extraHeader = TRUE] ELSE u
 
 \* the client writes its next request (pipelining: without waiting for the previous reply)
 ClientSend == /\ sent < Len(Requests) /\ sent' = sent + 1
               /\ dialled' = dialled \cup {Backend}
-              /\ UNCHANGED <<Requests, Replies, atBackend, answered, atClient>>
+              /\ UNCHANGED <<Requests, Replies, halfclose, atBackend, answered, atClient, shut>>
 
 \* the proxy forwards the next complete request
 Forward == /\ Len(atBackend) < sent /\ "does_nothing" \notin Deviations
            /\ ~("reader_per_message" \in Deviations /\ Len(atBackend) >= 1 /\ sent > Len(atBackend) + 1 /\ FALSE)
            /\ atBackend' = Append(atBackend, Mangle(Requests[Len(atBackend) + 1]))
-           /\ UNCHANGED <<Requests, Replies, sent, answered, atClient, dialled>>
+           /\ UNCHANGED <<Requests, Replies, halfclose, sent, answered, atClient, dialled, shut>>
 
-BackendReply == /\ answered < Len(atBackend) /\ answered' = answered + 1
-                /\ UNCHANGED <<Requests, Replies, sent, atBackend, atClient, dialled>>
+\* the client has sent everything and shuts down its sending side; the proxy passes the end of stream on
+ClientShut == /\ halfclose /\ sent = Len(Requests) /\ shut = 0 /\ shut' = 1
+              /\ UNCHANGED <<Requests, Replies, halfclose, sent, atBackend, answered, atClient, dialled>>
+ForwardShut == /\ shut = 1 /\ Len(atBackend) = sent /\ "does_nothing" \notin Deviations /\ shut' = 2
+               /\ UNCHANGED <<Requests, Replies, halfclose, sent, atBackend, answered, atClient, dialled>>
+
+BackendReply == /\ answered < Len(atBackend) /\ (halfclose => shut = 2) /\ answered' = answered + 1
+                /\ UNCHANGED <<Requests, Replies, halfclose, sent, atBackend, atClient, dialled, shut>>
 
 Back == /\ Len(atClient) < answered
+        /\ ~("returns_on_first_eof" \in Deviations /\ shut = 2)
         /\ atClient' = Append(atClient, Replies[Len(atClient) + 1])
-        /\ UNCHANGED <<Requests, Replies, sent, atBackend, answered, dialled>>
+        /\ UNCHANGED <<Requests, Replies, halfclose, sent, atBackend, answered, dialled, shut>>
 
-Next == ClientSend \/ Forward \/ BackendReply \/ Back
-Fairness == WF_vars(Forward) /\ WF_vars(BackendReply) /\ WF_vars(Back)
+Next == ClientSend \/ Forward \/ ClientShut \/ ForwardShut \/ BackendReply \/ Back
+Fairness == WF_vars(ClientSend) /\ WF_vars(Forward) /\ WF_vars(ClientShut) /\ WF_vars(ForwardShut) /\ WF_vars(BackendReply) /\ WF_vars(Back)
 
 \* ---- properties -------------------------------------------------------------------
 BackendSawExactlyClientSent == atBackend = SubSeq(Requests, 1, Len(atBackend))
